@@ -250,7 +250,7 @@ theorem lastKV_none_of_not_mem (t : GoType) (k : Bytes) : ∀ kvs : GoKVs, k ∉
 def lastF : Fields → GoVals → Bytes → Option Val
   | .cons .named a t rest, .cons v vs, k => (lastF rest vs k).or (if k = a then some (encode t v) else none)
   | .cons .omit a t rest, .cons v vs, k =>
-    if isZero v then lastF rest vs k else (lastF rest vs k).or (if k = a then some (encode t v) else none)
+    if equal (encode t v) (zeroDoc t) then lastF rest vs k else (lastF rest vs k).or (if k = a then some (encode t v) else none)
   | .cons .ignored _ _ rest, .cons _ vs, k => lastF rest vs k
   | .cons .inline _ (.struct fs') rest, .cons (.struct vs') vs, k => (lastF rest vs k).or (lastF fs' vs' k)
   | .cons .inline _ (.map t) rest, .cons (.map kvs) vs, k => (lastF rest vs k).or (lastKV t kvs k)
@@ -272,9 +272,9 @@ theorem encodeFields_spec (k : Bytes) : ∀ (fs : Fields) (vs : GoVals) (acc : P
     by_cases e : k = a <;> simp [e, Option.or_assoc]
   | .cons .omit a t rest, .cons v vs, acc, h => by
     simp only [encodeFields, lastF]
-    by_cases z : isZero v = true
+    by_cases z : equal (encode t v) (zeroDoc t) = true
     · simp only [z, if_true]; exact encodeFields_spec k rest vs acc h
-    · have z' : isZero v = false := by simpa using z
+    · have z' : equal (encode t v) (zeroDoc t) = false := by simpa using z
       simp only [z', Bool.false_eq_true, if_false]
       have ih := encodeFields_spec k rest vs (mapSet acc a (encode t v)) (sorted_set _ _ acc h)
       refine ⟨ih.1, ?_⟩
@@ -688,126 +688,5 @@ end
 
 def RTx (t : GoType) (x : Val) : Prop := ∃ v', decode t x = .ok v' ∧ encode t v' = x
 
-mutual
-  theorem rt_plain : (v : GoVal) → ∀ t : GoType, noStruct t = true → hasType t v = true → RTx t (encode t v)
-    | .int v, t, _, h => by
-      cases t <;> simp [hasType] at h
-      exact ⟨.int v, by simp [encode, dec_int _ _ h], by simp [encode]⟩
-    | .uint v, t, _, h => by
-      cases t <;> simp [hasType] at h
-      exact ⟨.uint v, by simp [encode, dec_uint _ _ h], by simp [encode]⟩
-    | .f32 b, t, _, h => by
-      cases t <;> simp [hasType] at h
-      exact ⟨.f32 b, by simp [encode, dec_f32 _ h.2], by simp [encode]⟩
-    | .f64 b, t, _, h => by
-      cases t <;> simp [hasType] at h
-      exact ⟨.f64 b, by simp [encode, dec_f64], by simp [encode]⟩
-    | .str s, t, _, h => by
-      cases t <;> simp [hasType] at h
-      exact ⟨.str s, by simp [encode, dec_str], by simp [encode]⟩
-    | .bool b, t, _, h => by
-      cases t <;> simp [hasType] at h
-      exact ⟨.bool b, by simp [encode, dec_bool], by simp [encode]⟩
-    | .bytesNil, t, _, h => by
-      cases t <;> simp [hasType] at h
-      exact ⟨.bytes [], by simp [encode, dec_bytes], by simp [encode]⟩
-    | .bytes bs, t, _, h => by
-      cases t <;> simp [hasType] at h
-      exact ⟨.bytes bs, by simp [encode, dec_bytes], by simp [encode]⟩
-    | .barr bs, t, _, h => by
-      cases t <;> simp [hasType] at h
-      exact ⟨.barr bs, by simp [encode, dec_barr _ _ h.1], by simp [encode]⟩
-    | .time ms lost, t, _, h => by
-      cases t <;> simp [hasType] at h
-      exact ⟨.time ms 0, by simp [encode, dec_time], by simp [encode]⟩
-    | .dur ns, t, _, h => by
-      cases t <;> simp [hasType] at h
-      exact ⟨.dur (durOfMs (durMs ns)), by simp [encode, dec_dur], by simp [encode, durMs_back ns h]⟩
-    | .uuid bs, t, _, h => by
-      cases t <;> simp [hasType] at h
-      exact ⟨.uuid bs, by simp [encode, dec_uuid _ h.1 h.2], by simp [encode]⟩
-    | .ptrNil, t, _, h => by
-      cases t <;> simp [hasType] at h
-      exact ⟨.ptrNil, by simp [encode, decode], by simp [encode]⟩
-    | .ptr v, t, hn, h => by
-      cases t <;> simp [hasType] at h
-      rename_i t'
-      simp only [noStruct] at hn
-      obtain ⟨v', hd, he⟩ := rt_plain v t' hn h
-      simp only [encode]
-      cases hx : encode t' v with
-      | nil => exact ⟨.ptrNil, by simp [decode], by simp [encode]⟩
-      | _ =>
-        rw [hx] at hd he
-        exact ⟨.ptr v', by simp [decode, hd, Res.map], by simp [encode, he]⟩
-    | .sliceNil, t, _, h => by
-      cases t <;> simp [hasType] at h
-      exact ⟨.slice .nil, by simp [encode, decode, decodeL, Res.map], by simp [encode, encodeL]⟩
-    | .slice xs, t, hn, h => by
-      cases t <;> simp [hasType] at h
-      rename_i t'
-      simp only [noStruct] at hn
-      obtain ⟨vs', hd, he, _⟩ := rt_plainL xs t' hn h
-      exact ⟨.slice vs', by simp [encode, decode, hd, Res.map], by simp [encode, he]⟩
-    | .arr xs, t, hn, h => by
-      cases t <;> simp [hasType] at h
-      rename_i n t'
-      simp only [noStruct] at hn
-      obtain ⟨vs', hd, he, hl⟩ := rt_plainL xs t' hn h.2
-      have hlen : ¬ (encodeL t' xs).length > n := by rw [encodeL_length]; omega
-      refine ⟨.arr vs', ?_, by simp [encode, he]⟩
-      simp [encode, decode, hlen, hd, Res.map, padTo_full _ n vs' (by omega)]
-    | .mapNil, t, _, h => by
-      cases t <;> simp [hasType] at h
-      exact ⟨.map .nil, by simp [encode, decode, decodeP, Res.map], by simp [encode, encodeKV]⟩
-    | .map kvs, t, hn, h => by
-      cases t <;> simp [hasType] at h
-      rename_i t'
-      simp only [noStruct] at hn
-      have sp := fun k => encodeKV_spec t' k kvs .nil rfl
-      obtain ⟨kvs', hd, hk⟩ := decodeP_sorted t' (encodeKV t' kvs .nil) (sp []).1 (by
-        intro k x hf
-        rw [(sp k).2] at hf
-        simp [mapFind] at hf
-        exact rt_plainKV kvs t' hn h.1 k x hf)
-      exact ⟨.map kvs', by simp [encode, decode, hd, Res.map],
-        by simp only [encode]; congr 1; exact rebuild_eq t' kvs' _ (sp []).1 hk⟩
-    | .struct vs, t, hn, h => by
-      cases t <;> simp [hasType] at h
-      simp [noStruct] at hn
-    | .anyNil, t, _, h => by
-      cases t <;> simp [hasType] at h
-      exact ⟨.anyNil, by simp [encode, dec_any .nil (by intro m; simp), generic], by simp [encode]⟩
-    | .any t' v, t, _, h => by
-      cases t <;> simp [hasType] at h
-      have hg := gen_enc v t'
-      have hne : ∀ m, encode t' v ≠ .err m := by
-        intro m e; rw [e] at hg; simp [genDoc] at hg
-      exact ⟨generic (encode t' v), by simp [encode, dec_any _ hne], by simpa [encode] using enc_generic _ hg⟩
-  theorem rt_plainL : (xs : GoVals) → ∀ t : GoType, noStruct t = true → hasTypeL t xs = true →
-      ∃ vs', decodeL (decode t) (encodeL t xs) = .ok vs' ∧ encodeL t vs' = encodeL t xs ∧ vs'.length = xs.length
-    | .nil, _, _, _ => ⟨.nil, by simp [encodeL, decodeL], rfl, rfl⟩
-    | .cons v vs, t, hn, h => by
-      simp only [hasTypeL, Bool.and_eq_true] at h
-      obtain ⟨v', hd, he⟩ := rt_plain v t hn h.1
-      obtain ⟨vs', hds, hes, hl⟩ := rt_plainL vs t hn h.2
-      exact ⟨.cons v' vs', by simp [encodeL, decodeL, hd, hds, Res.bind, Res.map], by simp [encodeL, he, hes],
-        by simp [GoVals.length, hl]⟩
-  theorem rt_plainKV : (kvs : GoKVs) → ∀ t : GoType, noStruct t = true → hasTypeKV t kvs = true →
-      ∀ k x, lastKV t kvs k = some x → RTx t x
-    | .nil, _, _, _, k, x, hf => by simp [lastKV] at hf
-    | .cons k0 v kvs, t, hn, h, k, x, hf => by
-      simp only [hasTypeKV, Bool.and_eq_true] at h
-      simp only [lastKV] at hf
-      cases hl : lastKV t kvs k with
-      | some x' =>
-        rw [hl] at hf; simp at hf; subst hf
-        exact rt_plainKV kvs t hn h.2 k x' hl
-      | none =>
-        rw [hl] at hf
-        by_cases e : k = k0
-        · simp [e] at hf; subst hf; exact rt_plain v t hn h.1.2
-        · simp [e] at hf
-end
 
 end Uniflow.Codec
